@@ -120,9 +120,16 @@ func Prop(c Case, x *h.Ctx) *h.Violation {
 	defer done()
 	if c.Direct || c.DirectRead {
 		// tmpfs accepts O_DIRECT and ignores its alignment rules: direct-I/O cases run on a disk file system when there is one
-		if d, ddone, ok := h.DiskScratch("c04"); ok {
-			defer ddone()
-			dir = d
+		// (not inside the native fuzz engine: it kills workers whose single execution takes long, and disk I/O under 16
+		// busy workers does)
+		onDisk := false
+		if os.Getenv("VERIF_FUZZ") == "" {
+			if d, ddone, ok := h.DiskScratch("c04"); ok {
+				defer ddone()
+				dir, onDisk = d, true
+			}
+		}
+		if onDisk {
 			x.Label("direct-io-on-disk-fs")
 		} else {
 			x.Label("direct-io-on-tmpfs-only")
